@@ -7,7 +7,6 @@ import (
 	"errors"
 	"fmt"
 	"io"
-	"math"
 	"os"
 	"os/exec"
 	"path/filepath"
@@ -102,7 +101,7 @@ type rsStats struct {
 func checkReadSeeker(fl *failer, rs io.ReadSeeker, l *layout, ops []Op, fs faultSource) (st rsStats) {
 	L := l.length
 	var pos int64
-	backseek := false  // a successful seek moved the cursor backwards earlier in the history
+	backseek := false   // a successful seek moved the cursor backwards earlier in the history
 	afterFault := false // a fault was delivered earlier in the history
 	var rbuf []byte
 	note := func(format string, a ...any) {
@@ -387,7 +386,8 @@ func runFuse(fl *failer, c Case, l *layout, idx desync.Index) (nontrivial bool) 
 	const name = "blob"
 	psig := panicSig("fuse", l)
 	root := desync.NewIndexMountFS(idx, name, store)
-	if guard(fl, psig, "attaching NewIndexMountFS with fs.NewNodeFS", func() { fs.NewNodeFS(root, &fs.Options{}) }) {
+	var raw fuse.RawFileSystem // go-fuse's bridge between the kernel protocol and the node tree, without a kernel
+	if guard(fl, psig, "attaching NewIndexMountFS with fs.NewNodeFS", func() { raw = fs.NewNodeFS(root, &fs.Options{}) }) {
 		return
 	}
 	ch := root.GetChild(name)
@@ -415,18 +415,62 @@ func runFuse(fl *failer, c Case, l *layout, idx desync.Index) (nontrivial bool) 
 
 	nh := max(1, min(c.Handles, 8))
 	ng := max(1, min(c.Goroutines, 16))
-	handles := make([]fs.FileHandle, nh)
+	// even handles: Open/Read on the node's operations; odd handles: LOOKUP/OPEN/READ through the bridge
+	type handle struct {
+		fh    fs.FileHandle
+		viaFh uint64
+		via   bool
+	}
+	var nodeID uint64
+	if nh > 1 {
+		var eo fuse.EntryOut
+		if st := raw.Lookup(nil, &fuse.InHeader{NodeId: 1}, name, &eo); st != fuse.OK {
+			fl.fail("C09:fuse:lookup", "bridge LOOKUP %q: status %d", name, int(st))
+			return
+		}
+		nodeID = eo.NodeId
+		if eo.Attr.Size != uint64(l.length) {
+			fl.fail("C09:fuse:size", "LOOKUP reports size %d, blob length %d", eo.Attr.Size, l.length)
+		}
+	}
+	handles := make([]*handle, nh)
 	for i := range handles {
 		if guard(fl, psig, "Open", func() {
+			if i%2 == 1 {
+				var oo fuse.OpenOut
+				if st := raw.Open(nil, &fuse.OpenIn{InHeader: fuse.InHeader{NodeId: nodeID}, Flags: uint32(os.O_RDONLY)}, &oo); st != fuse.OK {
+					fl.fail("C09:fuse:open", "bridge OPEN failed: status %d", int(st))
+					return
+				}
+				handles[i] = &handle{via: true, viaFh: oo.Fh}
+				return
+			}
 			fh, _, errno := opener.Open(ctx, uint32(os.O_RDONLY))
 			if errno != 0 {
 				fl.fail("C09:fuse:open", "Open failed: errno %d", int(errno))
 				return
 			}
-			handles[i] = fh
+			handles[i] = &handle{fh: fh}
 		}) || handles[i] == nil {
 			return
 		}
+	}
+	defer func() {
+		for _, h := range handles {
+			if h != nil && h.via {
+				raw.Release(nil, &fuse.ReleaseIn{InHeader: fuse.InHeader{NodeId: nodeID}, Fh: h.viaFh})
+			}
+		}
+	}()
+	doRead := func(h *handle, dest []byte, off int64) (fuse.ReadResult, syscall.Errno) {
+		if h.via {
+			rr, st := raw.Read(nil, &fuse.ReadIn{InHeader: fuse.InHeader{NodeId: nodeID}, Fh: h.viaFh, Offset: uint64(off), Size: uint32(len(dest))}, dest)
+			return rr, syscall.Errno(st)
+		}
+		return reader.Read(ctx, h.fh, dest, off)
+	}
+	if nh > 1 {
+		fl.class("fuse:via-bridge")
 	}
 
 	// fault schedule of this section, attributed to the goroutine that calls GetChunk
@@ -520,7 +564,7 @@ func runFuse(fl *failer, c Case, l *layout, idx desync.Index) (nontrivial bool) 
 					for j := range dest {
 						dest[j] = 0xA5
 					}
-					rr, errno := reader.Read(ctx, handles[h], dest, off)
+					rr, errno := doRead(handles[h], dest, off)
 					res.errno = errno
 					if errno == 0 && rr != nil {
 						b, st := rr.Bytes(bbuf[:size])
@@ -832,5 +876,3 @@ func run(c Case) (o hx.Outcome) {
 	}
 	return o
 }
-
-var _ = math.MaxInt64
